@@ -42,3 +42,6 @@ CLAIMS = {
                      "tie the model to the contract and exhibit failing inputs.",
                 note=NOTE, technique=TECH),
 }
+
+for _p in PROPS.values():
+    _p.setdefault("cover_files", ['contracts/nns/'])
